@@ -160,6 +160,8 @@ func init() {
 		}
 		r.checkFn(ld, "z80.(*CPU).Step", cs, nil, true, true, "cpu.Step()")
 		r.verifyLayerP(ld, "C12")
+		// (a'') the mode-0 overlay is a total Memory for every Data (lemma over the real functions)
+		r.checkLemmas(ld, "C12")
 		// (a') the bundled memory / port implementations behind Step
 		r.checkBundledTotality(ld)
 		// (b)
@@ -169,7 +171,7 @@ func init() {
 		r.structural(ld, "Run/halt/returns", ld.runHaltReturns(), "")
 		r.structural(ld, "Run/footprint", ld.runFootprint(), "")
 		r.Assumptions["C12: user-supplied Memory/IO/handler methods and package log terminate and do not panic"] = true
-		r.Assumptions["C12: totality of mode 0 when the overlay is inactive or Data is shorter than the opcode is compositional: executeOne is panic-free for every total Memory, im0data.Get/Set are total under the invariant newIm0data establishes"] = true
+		r.Assumptions["C12: totality of mode 0 when the overlay is inactive or Data is shorter than the opcode is compositional: executeOne is panic-free for every total Memory, im0data.Get/Set are total on every overlay newIm0data builds (lemma spec.vsLemma_C12_Im0Total, discharged)"] = true
 		r.Assumptions["C12: stack exhaustion / out-of-memory are not modelled; termination of Run for a given program is the halting problem (C08 proves: Run returns in the iteration that executes HALT)"] = true
 	}
 }
